@@ -631,7 +631,7 @@ pub fn run(ctx: &Ctx) -> Verdict {
     ];
     v.subs.push(super::replay_corpus(ctx));
     let worker = std::cell::RefCell::new(Worker::new("c09"));
-    let n = ctx.tier.pick(60_000, 1_000_000);
+    let n = ctx.tier.pick(150_000, 4_000_000);
     let mut sub = vcore::run_proptest(ctx, "lifecycle", n, case_strategy(), |c| check_via(&worker, c));
     sub.extra.insert("worker_processes_spawned".into(), serde_json::json!(worker.borrow().spawned));
     v.subs.push(sub);
